@@ -245,6 +245,31 @@ def step (w : World) (toks : List String) : World × String :=
       | .error er => (w, errStr er)
       | .ok s => (setEp w e s, "ok")
     | none => (w, "bad-op")
+  | ["import", e, blobHex, addr] =>
+    -- the stream is rebuilt around a connection whose remote address is `addr`
+    match (if blobHex == "-" then some [] else unhexAux blobHex.toList), parsePayload addr with
+    | some blob, some a =>
+      match importBlobAround a blob with
+      | .error er => (w, errStr er)
+      | .ok s => (setEp w e s, "ok")
+    | _, _ => (w, "bad-op")
+  | ["connaddr", e, addr] =>
+    -- NewStream(conn): the remote address of the connection, as the stream records it
+    match getEp w e, parsePayload addr with
+    | some s, some a => (setEp w e { s with peerAddr := a }, "ok")
+    | _, _ => (w, "bad-op")
+  | ["setpeer", e, addr] =>
+    match getEp w e, parsePayload addr with
+    | some s, some a => (setEp w e { s with peerAddr := a }, "ok")
+    | _, _ => (w, "bad-op")
+  | ["setauth", e, on] =>
+    match getEp w e with
+    | some s => (setEp w e { s with authenticated := on == "1" }, "ok")
+    | _ => (w, "bad-op")
+  | ["ident", e] =>
+    match getEp w e with
+    | some s => (w, s!"ok auth={boolStr s.authenticated} peer={showBytes s.peerAddr}")
+    | _ => (w, "bad-op")
   | ["state", e] =>
     match getEp w e with
     | some s => (w, s!"ok enc={boolStr s.encrypted} key={boolStr s.key.isSome} ectr={s.encCtr} dctr={s.decCtr}")
